@@ -295,6 +295,9 @@ def c12(ctx):
                                           Features='{"nested", "override", "wrap"}'))
             ctx.control("Pool specification with the seeded defect %s must violate an invariant" % d,
                         (not st["ok"]) and "is violated" in st["text"])
+    # history independence on the printer cases: every case of two slices printed three times in different orders
+    printer_slice(ctx, "smoke")
+    printer_slice(ctx, tier(ctx, "qcls", "cls"))
     # model -> code: behaviours replayed as call histories, probes compared with a fresh process
     hists = pool_histories_from_tlc(ctx, tier(ctx, 300, 5000), 40)
     trace = ctx.work + "/poolh.ndjson"
